@@ -90,7 +90,7 @@ func (v *Validator) ValidateAndAddShare(msg *sm.MiningSubmit) (float64, error) {
 		return 0, ErrDuplicateShare
 	}
 
-	diff, ok := ValidateDiff(job.extraNonce1, uint(job.extraNonce2Size), uint64(job.diff), v.versionRollingMask, job.notify, msg)
+	diff, ok := ValidateDiffFloat(job.extraNonce1, uint(job.extraNonce2Size), job.diff, v.versionRollingMask, job.notify, msg)
 	diffFloat := float64(diff)
 	if !ok {
 		err := lib.WrapError(ErrLowDifficulty, fmt.Errorf("expected %.2f actual %d xn=%s, xnsize=%d, diff=%d, vrmsk=%s", job.diff, diff, job.extraNonce1, uint(job.extraNonce2Size), uint64(job.diff), v.versionRollingMask))
